@@ -613,6 +613,11 @@ func (e *Env) evalCall(x *Expr) Val {
 		a := e.eval(x.Args[0])
 		vc.declareFun("chan_cap", []Sort{SInt}, SInt)
 		return Val{sx("chan_cap", a.t), SInt, types.Typ[types.Int]}
+	case "done_observed": // done_observed(ctx): a receive from ctx.Done() succeeded (so the context is cancelled)
+		a := e.eval(x.Args[0])
+		vc.declareFun("ctx_done", []Sort{SIface}, SInt)
+		rc := f.getCell(e.st, "ghost:recvd", "(Array Int Bool)")
+		return Val{sx("select", rc, sx("ctx_done", a.t)), SBool, nil}
 	case "isnil":
 		a := e.eval(x.Args[0])
 		return Val{e.specEqual(a, Val{"NIL", "NIL", nil}), SBool, nil}
